@@ -49,3 +49,31 @@ def corrupt_balance(ev):
             k = sorted(e["obs"]["bal"])[0]
             e["obs"]["bal"][k]["PEG"] = [1] + e["obs"]["bal"][k]["PEG"]
             return
+
+
+def upstream_fault_pass(pid, doc, tables, what, stride=3, mode="reqfault", blocks=None):
+    """Every stride-th upstream request (or statement) of every block of one chain fails once; afterwards the named tables must equal the
+    fault-free run's. Returns (experiments, failing). Prints a VIOLATION line for pid when an experiment fails."""
+    import json, shutil, sys
+    import c02
+    work = vlib.scratch(pid.lower() + "f-")
+    try:
+        vh = vlib.go_build("vh", "vh")
+        path = c02.crash_run(vh, doc, work, pid.lower() + "-fault", blocks or [], stride, vlib.seed() % max(1, stride), span=3, mode=mode)
+        evs = [json.loads(l) for l in open(path)]
+        if any(e["ev"] == "Infra" for e in evs):
+            raise vlib.Infra("fault experiment infrastructure failure")
+        exps = [e for e in evs if e["ev"] == "FaultExp"]
+        # (the second request of the two zeroing heights is NullifyBurnAddress' own dblock fetch: its dropped error is C10's open finding)
+        known_site = lambda e: mode == "reqfault" and e["k"] == 1 and e["h"] in (doc["sched"].get("DevRewards"), doc["sched"].get("V202"))
+        bad = [e for e in exps if not (e.get("equal") and e.get("contOK", True)) and not known_site(e)
+               and (not tables or set(e.get("diffTables") or []) & set(tables))]
+        if bad:
+            keep = os.path.join(vlib.replay_dir(pid), "%s-seed%d.ndjson" % (mode, vlib.seed()))
+            shutil.copyfile(path, keep)
+            json.dump(doc, open(keep + ".scenario.json", "w"))
+            sys.stdout.write("  after a failed %s (%s of block %s) %s: %s\n" % ("download" if mode == "reqfault" else "statement", bad[0]["k"], bad[0]["h"], what, bad[0].get("diffTables")))
+            vlib.violation(pid, keep)
+        return len(exps), len(bad)
+    finally:
+        shutil.rmtree(work, ignore_errors=True)
